@@ -19,11 +19,16 @@ class Verifier(Engine, StmtMixin, ExprMixin, CallMixin, BuiltinMixin):
         self.callees_used = set()
         self.cur_inputs = {}
         self.func_reports = {}
+        self.cur_opaque = set()
+        self._expanding = set()
+        self._spec_heap_guard = []
         self._install_axioms()
 
     # ------------------------------------------------------------------ axioms (assumptions, listed)
     def _install_axioms(self):
-        for name, text, vars_, source in self.reg.axioms:
+        for name, text, vars_, source, quantified in self.reg.axioms:
+            if not quantified:
+                continue
             st = State()
             qs = []
             for vn, vt in vars_.items():
@@ -41,6 +46,23 @@ class Verifier(Engine, StmtMixin, ExprMixin, CallMixin, BuiltinMixin):
             ax = z3.ForAll(qs, body) if qs else body
             self.global_axioms.append(ax)
             self.assumptions_used['axiom:' + name] = f'axiom {name}: {text}' + (f' [{source}]' if source else '')
+
+    def instantiate(self, hint, st):
+        """explicit instance of a registered axiom: (name, {var: spec expression}) -> z3 Bool"""
+        name, binding = hint
+        for an, text, vars_, source, q in self.reg.axioms:
+            if an == name:
+                break
+        else:
+            raise Unsupported(f'hint refers to unknown axiom {name}')
+        extra = {}
+        for vn, vt in vars_.items():
+            if vn not in binding:
+                raise Unsupported(f'axiom instance {name}: no binding for {vn}')
+            ty = parse_type(vt, self.reg.enums)
+            extra[vn] = self.coerce(self.ev_spec_val(binding[vn], st), ty, None)
+        self.assumptions_used['axiom:' + name] = f'axiom {name}: {text}' + (f' [{source}]' if source else '')
+        return self.ev_spec(text, st, extra=extra)
 
     # ------------------------------------------------------------------ initial state
     def initial_state(self, c, node, cls):
@@ -98,6 +120,8 @@ class Verifier(Engine, StmtMixin, ExprMixin, CallMixin, BuiltinMixin):
         first = len(self.obligations)
         self.cur_func_name = f'{c.file[:-3].replace("/", ".")}.{c.qualname}'
         ctx = FuncCtx(c.file, c.qualname, node, cls, c)
+        self.cur_opaque = set(c.opaque)
+        self.facts = []
         try:
             st, inputs = self.initial_state(c, node, cls)
             self.cur_inputs = inputs
@@ -107,6 +131,8 @@ class Verifier(Engine, StmtMixin, ExprMixin, CallMixin, BuiltinMixin):
                     st.env[nm] = self.ev_spec_val(tx, st)
                 for r in c.requires:
                     st.assume(self.ev_spec(r, st))
+                for h in c.hints:
+                    st.assume(self.instantiate(h, st))
                 # vacuity: the precondition must be satisfiable
                 rep['pre_sat'] = self.feasible(st)
                 if not rep['pre_sat']:
@@ -184,8 +210,10 @@ class Verifier(Engine, StmtMixin, ExprMixin, CallMixin, BuiltinMixin):
         self.oblige('raises-only', st, goal, o.line, f'escaping exception ({o.why}) must be one of {sorted(c.raises)}')
 
     # ------------------------------------------------------------------ lemmas over specs/contracts
-    def prove_lemma(self, pid, name, vars_, hyps, goal, hints=()):
+    def prove_lemma(self, pid, name, vars_, hyps, goal, hints=(), opaque=()):
         st = State()
+        self.cur_opaque = set(opaque)
+        self.facts = []
         self.cur_func_name = f'lemma.{name}'
         self.cur_inputs = {}
         for vn, vt in vars_.items():
@@ -195,10 +223,16 @@ class Verifier(Engine, StmtMixin, ExprMixin, CallMixin, BuiltinMixin):
             self.cur_inputs[vn] = c
         self.fstack.append(FuncCtx('<lemma>', name, ast.parse('0').body[0], None, None))
         try:
-            for h in list(hyps) + list(hints):
+            for h in list(hyps):
                 st.assume(self.ev_spec(h, st))
-            g = self.ev_spec(goal, st)
-            self.oblige('lemma', st, g, 0, goal)
+            for h in hints:
+                st.assume(self.instantiate(h, st))
+            # a list of goals is a proof in steps: each step is proved with the earlier ones as hypotheses
+            goals = goal if isinstance(goal, (list, tuple)) else [goal]
+            for k, gt in enumerate(goals):
+                g = self.ev_spec(gt, st)
+                self.oblige('lemma', st, g, 0, gt, tag=f'#{k}')
+                st = st.copy().assume(g)
         finally:
             self.fstack.pop()
 
@@ -251,4 +285,29 @@ def load_specs(reg, path):
             params = [(a.arg, a.annotation.value) for a in n.args.args]
             opaque = 'opaque' in decos
             native = getattr(mod, n.name, None) if mod else None
-            reg.specs[n.name] = SpecFn(n.name, None if opaque else n, params, n.returns.value, opaque, native)
+            sf = SpecFn(n.name, None if opaque else n, params, n.returns.value, opaque, native)
+            for d in n.decorator_list:
+                if isinstance(d, ast.Call) and isinstance(d.func, ast.Name) and d.func.id == 'reads':
+                    sf.reads = [a.value for a in d.args]
+            reg.specs[n.name] = sf
+
+
+def load_enums(reg, src):
+    """Enum members are read from the class statements of the source tree (never hard-coded)."""
+    for name, (relpath, cname) in getattr(reg, 'enums_src', {}).items():
+        m = src.modules.get(relpath)
+        ci = m.classes.get(cname) if m else None
+        if ci is None:
+            continue
+        members, aliases = [], {}
+        for n in ci.node.body:
+            if isinstance(n, ast.Assign) and len(n.targets) == 1 and isinstance(n.targets[0], ast.Name):
+                t = n.targets[0].id
+                if isinstance(n.value, ast.Name) and n.value.id in members:
+                    aliases[t] = n.value.id
+                elif isinstance(n.value, (ast.Constant, ast.Call)):
+                    members.append(t)
+        if members:
+            te = TEnum(name, members)
+            te.aliases = aliases
+            reg.enums[name] = te
